@@ -53,9 +53,10 @@ class PrefetchIterator:
     self._cond = threading.Condition()
     self._buffer = []
     self._active = True
+    # must be initialised before the thread starts: the prefetch loop may set it.
+    self._error = None
     self._thread = threading.Thread(target=self._prefetch_loop, daemon=True)
     self._thread.start()
-    self._error = None
 
   def __iter__(self):
     return self
